@@ -809,3 +809,80 @@ def s_scale(g, tier):
                 app({"all": [u, {"var": ""}]}, None), app({"some": [u, {"==": [{"var": ""}, u[-1:]]}]}, None), app({"var": "s.0"}, d), app({"var": "s.-1"}, d), app({"+": [u]}, None), app({"!!": [u]}, None),
                 app({"===": [{"var": "s"}, {"var": "l.0"}]}, d), app({"log": u}, None), app({"var": "l.0.0"}, d), "to_string " + enc([u, None, u]), "str_to_number " + enc(u), "str_to_number " + enc(u + "1")]
     return out
+
+
+def s_hints(g, h, tier):
+    """diff-guided cases: sizes / counts / lengths / indices / values taken from integer literals of the CHANGED source lines, and keys /
+    operands / characters taken from its string and char literals (tools/diffguide.py). Empty on an unchanged tree."""
+    out = []
+    alike = [1, "1", None, "null", True, "true", [], "[]", 0, "0", 7, "7", 7.0, [7], "x"]
+    sizes = []
+    for n in h.get("ints", []):
+        for m in (n - 1, n, n + 1, 2 * n, n // 2):
+            if 0 <= m <= 70000 and m not in sizes: sizes.append(m)
+    sizes = sizes[:30]
+    for m in sizes:
+        ones = [1] * m
+        # operand counts
+        for k in ("+", "*", "cat", "merge", "max", "min", "and", "or", "if", "missing", "==", "-", "var", "substr", "<", "in", "!", "missing_some", "map", "reduce", "all", "log"):
+            out.append(app({k: ones}, {"1": 1}))
+        if m >= 2:
+            out += [app({"+": [0.1] * m}, None), app({"*": [1.0000000000000002] * min(m, 2000)}, None), app({"cat": ["é"] * m}, None), app({"and": [1] * (m - 1) + [0]}, None),
+                    app({"or": [0] * (m - 1) + ["t"]}, None), app({"if": [0, "x"] * (m // 2) + ["e"]}, None), app({"max": list(range(m))}, None), app({"merge": [[i, [i]] for i in range(min(m, 5000))]}, None)]
+        # collections of that length, look-alike elements at the end
+        coll = ([0] * max(0, m - len(alike)) + alike)[:m] if m >= 1 else []
+        d = {"c": coll, "s": "x" * m, "u": "é" * m, "n": m, "k" * min(m, 300): "longkey"}
+        for pred in ({"===": [{"var": ""}, "1"]}, {"===": [{"var": ""}, 7]}, {"in": [{"var": ""}, ["7", "true"]]}, {"log": {"var": ""}}, {"log": "tick"}, {"!": [{"var": ""}]}, {"var": ""}):
+            for q in ("all", "some", "none", "filter", "map"):
+                out.append(app({q: [{"var": "c"}, pred]}, d))
+            if m <= 300: out.append(app({"all": [coll, pred]}, d))
+        out += [app({"reduce": [{"var": "c"}, {"cat": [{"var": "accumulator"}, {"var": "current"}]}, ""]}, d), app({"reduce": [{"var": "c"}, {"+": [{"var": "current"}, {"var": "accumulator"}]}, 0.5]}, {"c": [0.1] * m}),
+                app({"in": [7.0, {"var": "c"}]}, d), app({"in": ["7", {"var": "c"}]}, d), app({"in": [[7.0], {"var": "c"}]}, d), app({"merge": [{"var": "c"}, {"var": "c"}]}, d), app({"cat": [{"var": "c"}]}, d),
+                app({"in": [7.0, list(range(m))]}, None) if m <= 5000 else app({"in": [7.0, {"var": "c"}]}, d), app({"in": [{"var": "x"}, list(range(min(m, 5000)))]}, {"x": 7.0}),
+                app({"var": "c.%d" % m}, d), app({"var": "c.%d" % (m - 1)}, d), app({"var": "c.-%d" % m}, d), app({"var": ["c.%d" % m, "dflt"]}, d), app({"var": "s.%d" % m}, d), app({"var": "u.%d" % (m - 1)}, d),
+                app({"var": "u.-%d" % m}, d), app({"missing": ["c.%d" % (m - 1), "c.%d" % m, "s.%d" % m, "u.%d" % (m - 1), "u.-%d" % m, "u.-%d" % (m + 1)]}, d), app({"var": "k" * min(m, 300)}, d),
+                app({"substr": [{"var": "s"}, m]}, d), app({"substr": [{"var": "s"}, m - 1]}, d), app({"substr": [{"var": "u"}, -m]}, d), app({"substr": [{"var": "u"}, 1, m]}, d), app({"substr": [{"var": "u"}, 0, -(m - 1)]}, d),
+                app({"substr": [{"var": "u"}, m - 1, 2]}, d), app({"==": [{"var": "s"}, {"var": "s"}]}, d), app({"===": [{"var": "u"}, {"var": "u"}]}, d), app({"<": [{"var": "s"}, {"var": "u"}]}, d), app({"!=": [{"var": "u"}, 1]}, d),
+                app({"in": ["xx", {"var": "s"}]}, d), app({"cat": [{"var": "s"}, {"var": "u"}]}, d), app({"all": [{"var": "u"}, {"==": [{"var": ""}, "é"]}]}, d) if m <= 5000 else app({"!!": [{"var": "u"}]}, d),
+                app({"+": [{"var": "s"}]}, d), app({"map": [{"var": "u"}, 1]}, d), app({"max": [{"var": "u"}]}, d), app({"var": [{"var": "u"}]}, d), app({"==": [{"var": "u"}]}, d), app({"reduce": {"var": "u"}}, d)]
+        for pad in range(4):
+            su = "a" * pad + "é" * m
+            out += [app({"all": [{"var": ""}, True]}, {"name": su}), app({"==": [su]}, None), app({"map": su}, None), app({"+": [su]}, None), app({"substr": [su, su]}, None)]
+        # key lists of that length with look-alike keys
+        ks = (["f%d" % i for i in range(max(0, m - 6))] + [7, "7", 7, "gone", "7", -1])[:m]
+        present = {"f%d" % i: i for i in range(0, m, 2)}
+        out.append(app({"missing": ks}, present))
+        for t in (0, 1, m // 2, m // 2 + 1, m - 1, m, m + 1):
+            if t >= 0: out.append(app({"missing_some": [t, ks]}, present))
+        # the number itself as a value, index, length
+        for v in (m, -m, float(m), str(m), [m], m + 0.5):
+            out += [app({"+": [v, 1]}, None), app({"-": [v]}, None), app({"==": [v, m]}, None), app({"<": [v, m]}, None), app({"<=": [m, v]}, None), app({"===": [v, float(m)]}, None), app({"in": [v, [m]]}, None),
+                    app({"!!": [v]}, None), app({"cat": [v]}, None), app({"max": [v, m - 1]}, None), app({"%": [v, 7]}, None), app({"*": [v, v]}, None)]
+            if isinstance(v, int): out += [app({"substr": ["abcdef" * 3, v]}, None), app({"substr": ["abcdef" * 3, 1, v]}, None), app({"var": v}, list(range(20))), app({"var": [v, "d"]}, "héllo"), app({"missing_some": [v, ["a"]]}, {})]
+        # nesting depth
+        if 2 <= m <= 126:
+            for k, neutral, poss in NEST_TEMPLATES[:30]:
+                inner = 1
+                for _ in range(m): inner = nest(k, poss[0], inner, neutral)
+                out.append(app(inner, {"a": 1}))
+            dd = 1
+            for _ in range(m): dd = [dd]
+            out += [app({"cat": [{"var": ""}]}, dd), app({"==": [{"var": ""}, {"var": ""}]}, dd), app({"in": [{"var": ""}, [{"var": ""}]]}, dd), app({"var": ".".join(["0"] * m)}, dd)]
+    # string literals of the changed code: as keys, paths, values, operands, needles
+    for sv in h.get("strs", []):
+        d = {sv: "val", "a": {sv: 1, "b": [sv]}, "s": sv, "l": [sv, 1], "note": "n"}
+        out += [app({"var": sv}, d), app({"var": [sv, "dflt"]}, d), app({"var": "a." + sv}, d), app({"missing": [sv, sv + "x"]}, d), app({"missing_some": [1, [sv]]}, d), app({sv: [1, 2]}, d), app({sv: "x"}, d),
+                app({sv: [1, 2], "var": "a"}, d), app({"var": "a", sv: 1}, d), app({"if": [True, {sv: 1, "var": "s"}, 0]}, d), app({"merge": [{sv: "c", "cat": ["a"]}]}, d),
+                app({"cat": [sv, sv]}, None), app({"==": [sv, sv]}, None), app({"==": [sv, 0]}, None), app({"<": [sv, "a"]}, None), app({"+": [sv]}, None), app({"+": ["1" + sv]}, None), app({"-": [sv + "1", 0]}, None),
+                app({"in": [sv, "x" + sv + "y"]}, None), app({"in": [sv, [sv]]}, None), app({"substr": [sv + "z", 1]}, None), app({"substr": [sv, -1]}, None), app({"!!": [sv]}, None), app({"all": [sv, {"var": ""}]}, None),
+                app({"log": sv}, None), app({"var": "s.0"}, d), app({"===": [{"var": "s"}, {"var": "l.0"}]}, d), "str_to_number " + enc(sv), "str_to_number " + enc(" " + sv + " "), "parse_float " + enc(sv), "to_string " + enc([sv, None])]
+        for k in ALLOPS:
+            out.append(app({k: [sv, sv]}, d)); out.append(app({k: sv}, d)); out.append(app({sv: 1, k: [good_operand(k, 0), good_operand(k, 1)]}, d))
+    # char literals of the changed code
+    for c in h.get("chars", []):
+        for sv in (c, "1" + c, c + "1", "a" + c + "b", c + "1" + c, "1" + c + "2", c * 3, "1.5" + c, "1e" + c, "0x" + c + "1", "e" + c):
+            d = {sv: 1, "s": sv}
+            out += [app({"var": sv}, d), app({"var": [sv, "d"]}, {}), app({"+": [sv]}, None), app({"*": [sv, 2]}, None), app({"-": [sv, 0]}, None), app({"==": [sv, 1]}, None), app({"==": [sv, sv]}, None), app({"<": [sv, "1"]}, None),
+                    app({"substr": [sv, 1]}, None), app({"substr": [sv, 0, 1]}, None), app({"substr": [sv, -1]}, None), app({"in": [c, sv]}, None), app({"all": [sv, {"==": [{"var": ""}, c]}]}, None), app({"some": [sv, {"==": [{"var": ""}, "1"]}]}, None),
+                    app({"cat": [sv]}, None), app({"var": "s.0"}, d), app({"var": "s.-1"}, d), app({"missing": [sv]}, d), "str_to_number " + enc(sv), "parse_float " + enc(sv), "to_number " + enc([sv])]
+    return out
